@@ -43,6 +43,11 @@ CHECKS = {
             'name<->opcode maps are checked exhaustively over 0..255.',
             'Trusted: the operation table and encoder in vf/enc/c12_expr.py (transcribed from DWARF v5 table 7.9 + GNU/WASM documents, refereed in development against readelf and llvm-dwarfdump).',
             'DESIGN.md 4/C12'),
+    'C14': ('Hypothesis-generated note-extent models + deterministic sweep, own note encoder, embedded as section / segment / both by an independent ELF writer; round-trip against the model',
+            'Exploration: every note (owner, type, raw descriptor, offset, padded size), tiling of the extent, section view == segment view, decoded descriptors of '
+            'GNU ABI tag / build id / gold version / property lists and CORE NT_PRPSINFO / NT_FILE (per class and uid-width machine set), type-name table switch on ET_CORE, and stab records.',
+            'Trusted: the note encoder in vf/checks/c14.py (refereed against readelf -n and llvm-readelf -n), vf/enc/elf.py. 8-byte note alignment and unpadded tails are outside the generated domain.',
+            'DESIGN.md 4/C14'),
     'C15': ('Hypothesis-generated version-section models (forward displacement layouts) embedded in ELF files by an independent writer; round-trip against the model',
             'Exploration: verdef/verneed entries and auxiliary chains walked through arbitrary non-contiguous forward vd_next/vd_aux/vda_next/vn_next/vn_aux/vna_next '
             'displacements, names through the linked string table, get_version hits/misses/duplicates/hidden bit, has_indexes memoisation, versym entries paired with '
